@@ -463,6 +463,49 @@ static long __attribute__((noinline)) copyplain_run(void) {
   return bad;
 }
 
+/* a type whose New instance has a destructor but NO constructor (both members are optional): its objects are finalised like any
+   others - by del, by a Box, by a collection */
+struct DOnly { int64_t id; };
+static long donly_fin[16];
+static void DOnly_Del(var self) { int64_t i = ((struct DOnly*)self)->id; if (i >= 0 && i < 16) donly_fin[i]++; }
+var DOnly = Cello(DOnly, Instance(New, NULL, DOnly_Del));
+static void __attribute__((noinline)) donly_build(void) {
+  for (int i = 0; i < 8; i++) { struct DOnly* d = new(DOnly); d->id = i; if (i == 0) del(d); else if (i == 1) { var b = new(Box, d); del(b); } else if (i == 2) { struct DOnly* r = new_raw(DOnly); r->id = 8; del_raw(r); } }
+}
+static long __attribute__((noinline)) donly_run(void) {
+  long bad = 0; memset(donly_fin, 0, sizeof donly_fin);
+  donly_build();
+  if (donly_fin[0] != 1 || donly_fin[1] != 1 || donly_fin[8] != 1) bad++;
+  scrub(); do_collect(0); do_collect(1); do_collect(0);
+  for (int i = 0; i < 9; i++) if (donly_fin[i] != 1) bad++;
+  return bad;
+}
+
+/* heap views keep their inputs alive: a heap Zip over two Arrays of Refs to Nodes, a heap Slice and a heap Map, each the ONLY
+   reference to its input (built in a frame of its own) */
+static var keep_fn(var x) { return x; }
+static void __attribute__((noinline)) heapviews_build(volatile var* slot) {
+  var holder = new(Tuple);
+  for (int v = 0; v < 3; v++) {
+    var a = new(Array, Ref); var b = new(Array, Ref);
+    for (int i = 0; i < 4; i++) { push(a, $R(new(Node, $I(1000 + v * 8 + i)))); push(b, $R(new(Node, $I(1000 + v * 8 + 4 + i)))); }
+    var view = v == 0 ? (var)new(Zip, a, b) : v == 1 ? (var)new(Slice, a, $I(1)) : (var)new(Map, a, new(Function, $(Function, keep_fn)));
+    push(holder, view);
+    if (v != 0) push(holder, b);                 /* (only the Zip takes two inputs) */
+  }
+  *slot = holder;
+}
+static long __attribute__((noinline)) heapviews_run(volatile var* slot) {
+  long bad = 0;
+  heapviews_build(slot);
+  scrub(); do_collect(0); do_collect(1); do_collect(0);
+  for (int i = 0; i < 24; i++) if (fin_count[1000 + i]) bad++;
+  long seen = 0; foreach (t in get(*slot, $I(0))) { seen++; if (seen > 10) break; }
+  if (seen != 4) bad++;
+  *slot = NULL;
+  return bad;
+}
+
 static void __attribute__((noinline)) plain_nodes_build(long base, long n) { for (long i = 0; i < n; i++) { var nd = new(Node, $I(base + i)); (void)nd; } }
 
 /* a heap Tuple one of whose items is NULL (set, push and the constructor accept it): the collector meets it while marking */
@@ -764,6 +807,17 @@ static int __attribute__((noinline)) real_main(int argc, char** argv) {
       volatile long bad = 0; bulkn = 0;
       HC_TRY(bad = copyplain_run());
       ev_begin("bulk"); ev_int("n", 1); ev_int("rooted", 1); ev_int("lost", bad); ev_int("twice", 0); ev_int("stale", 0); ev_int("gone", 0);
+      ev_str("exc", hc_exc); ev_int("line", cur_line); ev_end();
+    } else if (hc_is(0, "donly")) {
+      volatile long bad = 0; bulkn = 0;
+      HC_TRY(bad = donly_run());
+      ev_begin("bulk"); ev_int("n", 1); ev_int("rooted", 0); ev_int("lost", bad); ev_int("twice", 0); ev_int("stale", 0); ev_int("gone", 0);
+      ev_str("exc", hc_exc); ev_int("line", cur_line); ev_end();
+    } else if (hc_is(0, "heapviews")) {
+      volatile long bad = 0; bulkn = 24;
+      boxheld_slot = &ROOTSLOT(30);
+      HC_TRY(bad = heapviews_run(boxheld_slot); scrub(); do_collect(0));
+      ev_begin("bulk"); ev_int("n", 24); ev_int("rooted", 1); ev_int("lost", bad); ev_int("twice", 0); ev_int("stale", 0); ev_int("gone", 0);
       ev_str("exc", hc_exc); ev_int("line", cur_line); ev_end();
     } else if (hc_is(0, "finalloc")) {         /* finalloc <n> <k> : n garbage Nodes whose finalisers allocate k objects each, in the middle of a sweep */
       long n = (long)hc_int(1); if (n > 20000) n = 20000;
